@@ -48,5 +48,5 @@ ListsT == { <<1>>, <<1, 2>>, <<7>> }
 PkgsQ == { <<17, 18>>, <<17, 19>>, <<1, 2>> }
 PkgsT == { <<17, 18>>, <<17, 19>>, <<17, 20>>, <<17, 18, 21>>, <<1, 2>>, <<1, 6>>, <<7, 8>>, <<13, 1, 14>>, <<17, 21>> }
 ExtQ == [ExtStd EXCEPT !.pkgs = PkgsQ, !.maxpkg = 1]
-ExtT == [ExtStd EXCEPT !.pkgs = PkgsT, !.maxpkg = 2]
+ExtT == [ExtStd EXCEPT !.pkgs = PkgsT, !.maxpkg = 1]
 ====
